@@ -5,5 +5,11 @@ PROPS = {
     # value mangled at parse time (e.g. a TXT value cut at its first ';') is seen by C09's own check
     "C09": {"families": [fam("c10", 1500, 15000)]},
     # the "generic" notion of C06 (no PERMITTED domain) is the one the priority order reads
-    "C06": {"families": [fam("c07.prio", 1000, 8000)]},
+    "C06": {"families": [fam("c07.prio", 1000, 8000), fam("c13.srcmemo", 150, 2000)]},
+    # changes that need SCALE (thousands of retrieved rules) or a particular request sequence to manifest
+    "C02": {"families": [fam("scale", 1, 1, seeds=2)]},
+    "C13": {"families": [fam("scale", 1, 1, seeds=2), fam("c13.srcmemo", 150, 2000), fam("c13.tail", 100, 1500)]},
+    "C11": {"families": [fam("c13.tail", 100, 1500)]},
+    "C19": {"families": [fam("scale", 1, 1, seeds=2)]},
+    "C04": {"families": [fam("c04.collide", 40, 400)]},
 }
